@@ -3,7 +3,7 @@ from meta import COMMON_NOTE
 
 SPEC = hdr_spec(
     "C18", "A merkle proof verifies only if it ties the transaction to a known header",
-    prefixes={"C18"}, profiles=[("proof", 1)],
+    prefixes={"C18"}, profiles=[("proof", 3), ("proofmark", 2)],
     rule=GEN_RULE + "every header commits to a block of 1..33 transactions; proofs are produced by the dependency's real MerkleTree for every width and position, given with "
          "header or with block hash only, for blocks on the best chain, on side branches, in pruned history and for headers never accepted, honest or with one corruption "
          "(txid, one path element, index shifted by +-1, +-2^k, header of another block, unknown hash, no header at all); non-trivial = at least 8 submissions",
